@@ -602,7 +602,7 @@ Definition parse_mode_prefix (x : str) : option (str * str) :=
   | c :: r =>
       if ascii_eqb c c_lbr then
         match span_until c_rbr r with
-        | (_ :: _ as g, _ :: rest) => Some (g, dropw rest)
+        | ((_ :: _) as g, _ :: rest) => Some (g, dropw rest)
         | _ => None
         end
       else None
